@@ -22,6 +22,7 @@ type Mutant struct {
 	Replace2 string   `json:"replace2"`
 	Expect   []string `json:"expect"` // substrings, one of which must occur in a failed obligation's name
 	Note     string   `json:"note"`
+	Harmless bool     `json:"harmless"` // a behaviour-preserving edit: the check must stay silent (exit 0, no violation)
 }
 
 func runSelftest(args []string) int {
@@ -75,6 +76,23 @@ func runSelftest(args []string) int {
 			mut = strings.Replace(mut, m.Find2, m.Replace2, 1)
 		}
 		code, out := runCheck(m.Property, "quick", repo, map[string][]byte{path: []byte(mut)}, false)
+		if m.Harmless {
+			if code == 0 && out != nil && len(out.violations) == 0 {
+				fmt.Printf("HARMLESS %-38s silent\n", m.ID)
+			} else {
+				fmt.Printf("HARMLESS %-38s FALSE ALARM exit=%d\n", m.ID, code)
+				if out != nil {
+					for _, v := range out.violations {
+						fmt.Println("    ", v)
+					}
+					for _, v := range out.toolErrs {
+						fmt.Println("    ", v)
+					}
+				}
+				bad++
+			}
+			continue
+		}
 		hit := ""
 		if out != nil {
 			for _, o := range out.obligs {
@@ -110,7 +128,7 @@ func runSelftest(args []string) int {
 			bad++
 		}
 	}
-	fmt.Printf("selftest: %d mutants, %d not caught\n", n, bad)
+	fmt.Printf("selftest: %d edits (breaking ones must be caught, harmless ones must stay silent), %d wrong\n", n, bad)
 	if bad > 0 {
 		return 1
 	}
